@@ -246,6 +246,14 @@ class Env:
         self.A1 = [g.uniform(-1, 1, (1, 4, 2)), g.uniform(-1, 1, (2, 1, 2)), g.uniform(-1, 1, (2, 3, 1))]
         self.I1 = self.I.copy()
         self.I1[:, 1] = 0
+        self.Iy = self.I % np.array([4, 5, 3])
+        self.I44 = np.vstack([g.integers(0, 4, (60, 3))])
+        self.R22 = g.uniform(-1, 1, (2, 2))
+        self.R33 = g.uniform(-1, 1, (3, 3)) + 2 * np.eye(3)
+        self.M44 = g.uniform(-1, 1, (4, 4))
+        self.Yq = [g.uniform(-1, 1, (1, 2, 2)), g.uniform(-1, 1, (2, 2, 2)), g.uniform(-1, 1, (2, 2, 2)), g.uniform(-1, 1, (2, 2, 1))]
+        self.Iq = g.integers(0, 2, (5, 4))
+        self.Ymat = [g.uniform(-1, 1, (1, 2, 2, 2)), g.uniform(-1, 1, (2, 2, 2, 1))]
         self.Ybig = [self.Yp[0].copy(), self.Yp[1] * 2. ** 200, self.Yp[2].copy()]
         self.Ytiny = [G * 2. ** -150 for G in self.Yp]
         self.Isp = np.array([[0, 0, 0], [1, 1, 1], [2, 2, 2], [3, 3, 3], [0, 1, 2], [1, 2, 3]])
@@ -413,7 +421,8 @@ def check_shared_args(E, seeds, fails, stats, only=None):
     them: every call must give the reference result (computed on saved copies) and the argument objects must be bit-identical
     afterwards"""
     attrs = [a for a in vars(E) if isinstance(getattr(E, a), (list, np.ndarray))]
-    ths = [(k, t) for k, t in all_thunks(E, seeds, degenerate=False) if not only or 'shared' in only or k[0] in only]
+    ths = [(k, t) for k, t in all_thunks(E, seeds, degenerate=False) if (not only or 'shared' in only or k[0] in only)
+           and '[documented in-place]' not in k[0]]
     refs = {}
     for key, t in ths:
         np.random.seed(4)
@@ -579,6 +588,281 @@ def churn(E, k):
         pass
 
 
+# ----------------------------------------------------------------------------------------------------------------------
+# systematic option coverage: every optional parameter of every exported function, one at a time
+# ----------------------------------------------------------------------------------------------------------------------
+
+def sys_base(E):
+    """exported function -> (positional arguments, base keyword arguments); each call builds (copies of) its inputs"""
+    tn = E.tn
+    Y, Y2, Yp, A, Y0, I, y, X, yx, M, G, n = E.Y, E.Y2, E.Yp, E.A, E.Y0, E.I, E.y, E.X, E.yx, E.M, E.G, E.n
+    Iy = lambda: cp(E.Iy)
+    B = {}
+    B['ANOVA'] = lambda: ([cp(I), cp(y)], dict(seed=7))
+    B['ANOVA_func'] = lambda: ([cp(X), cp(yx), 4], {})
+    B['accuracy'] = lambda: ([cp(Y), cp(Y2)], {})
+    B['accuracy_on_data'] = lambda: ([cp(Y0), cp(I), cp(y)], {})
+    B['add'] = lambda: ([cp(Y), cp(Y2)], {})
+    B['add_many'] = lambda: ([[cp(Y), cp(Y2), cp(Y)]], {})
+    B['als'] = lambda: ([cp(I), cp(y), cp(Y0)], dict(nswp=2))
+    B['als_func'] = lambda: ([cp(X), cp(yx), cp(Y0)], dict(nswp=2))
+    B['anova'] = lambda: ([cp(I), cp(y)], dict(seed=7))
+    B['anova_func'] = lambda: ([cp(X), cp(yx), 4], {})
+    B['cache_to_data'] = lambda: ([], {})
+    B['cdf_confidence'] = lambda: ([cp(yx)], {})
+    B['cdf_getter'] = lambda: ([cp(yx)], {})
+    B['const'] = lambda: ([cp(n)], {})
+    B['copy'] = lambda: ([cp(Y)], {})
+    B['core_dot'] = lambda: ([cp(G), cp(E.R33)], {})
+    B['core_dot_inv'] = lambda: ([cp(G), cp(E.R33)], {})
+    B['core_dot_maxvol'] = lambda: ([cp(G), cp(E.R33)], {})
+    B['core_qr_rand'] = lambda: ([cp(G), 2], dict(seed=7))
+    B['core_qtt_to_tt'] = lambda: ([[cp(E.Yq[1]), cp(E.Yq[2])]], {})
+    B['core_stab'] = lambda: ([cp(G)], {})
+    B['core_tt_to_qtt'] = lambda: ([cp(G)], {})
+    B['cross'] = lambda: ([E.f_cross, cp(Y0)], dict(m=300, e=1e-10))
+    B['cross_act'] = lambda: ([E.f_act, [cp(Y), cp(Y2)], cp(E.Y1)], dict(nswp=2, r=4, dr=2, seed=7))
+    B['delta'] = lambda: ([cp(n), [1, 2, 0]], {})
+    B['erank'] = lambda: ([cp(Y)], {})
+    B['full'] = lambda: ([cp(Y)], {})
+    B['full_matrix'] = lambda: ([cp(E.Ymat)], {})
+    B['func_basis'] = lambda: ([cp(X[:5])], {})
+    B['func_diff_matrix'] = lambda: ([-1., 1., 5], {})
+    B['func_diff_matrix_apply'] = lambda: ([cp(A), tn.func_diff_matrix(-1., 1., 4)], {})
+    B['func_get'] = lambda: ([cp(X[:5]), tn.func_int(cp(Y0)), -1., 1.], {})
+    B['func_get_full'] = lambda: ([cp(X[:5]), tn.full(tn.func_int(cp(Y0))), -1., 1.], {})
+    B['func_gets'] = lambda: ([cp(A)], {})
+    B['func_gets_full'] = lambda: ([tn.full(cp(A)), -1., 1.], {})
+    B['func_int'] = lambda: ([cp(Y0)], {})
+    B['func_int_full'] = lambda: ([tn.full(cp(Y0))], {})
+    B['func_sum'] = lambda: ([cp(A), -1., 1.], {})
+    B['func_sum_full'] = lambda: ([tn.full(cp(A)), -1., 1.], {})
+    B['get'] = lambda: ([cp(Y), [1, 2, 0]], {})
+    B['get_and_grad'] = lambda: ([cp(Y), [1, 2, 0]], {})
+    B['get_many'] = lambda: ([cp(Y), Iy()[:10]], {})
+    B['grid_flat'] = lambda: ([[2, 3]], {})
+    B['grid_prep_opt'] = lambda: ([2.], dict(d=3))
+    B['grid_prep_opts'] = lambda: ([], dict(a=-1., b=1., n=4, d=3))
+    B['ind_qtt_to_tt'] = lambda: ([cp(E.Iq), 2], {})
+    B['ind_to_poi'] = lambda: ([cp(I[:5]), -1., 1., 4], {})
+    B['ind_tt_to_qtt'] = lambda: ([cp(I[:5]), 4], {})
+    B['interface'] = lambda: ([cp(Y)], {})
+    B['matrix_skeleton'] = lambda: ([cp(M)], {})
+    B['matrix_svd'] = lambda: ([cp(M)], {})
+    B['maxvol'] = lambda: ([cp(M)], {})
+    B['maxvol_rect'] = lambda: ([cp(M)], {})
+    B['mean'] = lambda: ([cp(Y)], {})
+    B['mul'] = lambda: ([cp(Y), cp(Y2)], {})
+    B['mul_scalar'] = lambda: ([cp(Y), cp(Y2)], {})
+    B['norm'] = lambda: ([cp(Y)], {})
+    B['optima_func_tt_beam'] = lambda: ([cp(Y0)], {})
+    B['optima_qtt'] = lambda: ([cp(E.Yq)], {})
+    B['optima_tt'] = lambda: ([cp(Y)], {})
+    B['optima_tt_beam'] = lambda: ([cp(Y)], {})
+    B['optima_tt_max'] = lambda: ([cp(Y)], {})
+    B['orthogonalize'] = lambda: ([cp(Y)], {})
+    B['orthogonalize_left'] = lambda: ([cp(Y), 1], {})
+    B['orthogonalize_right'] = lambda: ([cp(Y), 1], {})
+    B['outer'] = lambda: ([cp(Y), cp(Y2)], {})
+    B['outer_many'] = lambda: ([[cp(Y), cp(Y2)]], {})
+    B['poi_scale'] = lambda: ([cp(X[:5]), -1., 1.], {})
+    B['poi_to_ind'] = lambda: ([cp(X[:5]), -1., 1., 4], {})
+    B['poly'] = lambda: ([cp(n)], {})
+    B['qtt_to_tt'] = lambda: ([cp(E.Yq), 2], {})
+    B['rand'] = lambda: ([cp(n), 2], dict(seed=7))
+    B['rand_custom'] = lambda: ([cp(n), 2, lambda sz: np.random.default_rng(5).normal(size=sz)], {})
+    B['rand_norm'] = lambda: ([cp(n), 2], dict(seed=7))
+    B['rand_stab'] = lambda: ([cp(n), 2], dict(seed=7))
+    B['ranks'] = lambda: ([cp(Y)], {})
+    B['sample'] = lambda: ([cp(Yp)], dict(seed=7))
+    B['sample_func'] = lambda: ([cp(A)], dict(seed=7))
+    B['sample_lhs'] = lambda: ([cp(n), 7], dict(seed=7))
+    B['sample_rand'] = lambda: ([cp(n), 7], dict(seed=7))
+    B['sample_rand_poi'] = lambda: ([[-1., 0., 2.], [1., 3., 5.], 5], dict(seed=7))
+    B['sample_square'] = lambda: ([cp(Yp)], dict(seed=7))
+    B['sample_tt'] = lambda: ([cp(n)], dict(seed=7))
+    B['shape'] = lambda: ([cp(Y)], {})
+    B['show'] = lambda: ([cp(Y)], {})
+    B['size'] = lambda: ([cp(Y)], {})
+    B['sub'] = lambda: ([cp(Y), cp(Y2)], {})
+    B['sum'] = lambda: ([cp(Y)], {})
+    B['svd'] = lambda: ([tn.full(cp(Y))], {})
+    B['svd_matrix'] = lambda: ([cp(E.M44)], {})
+    B['vector_delta'] = lambda: ([3, 5], {})
+    B['matrix_delta'] = lambda: ([3, 5, 2], {})
+    B['svd_incomplete'] = lambda: ((lambda smp: [smp[0], Env.f_cross(smp[0]), smp[1], smp[2]])(tn.sample_tt([4, 4, 4], 2, seed=3)), {})
+    B['optima_tt_maxvol'] = lambda: ([cp(Y)], {})
+    B['truncate'] = lambda: ([tn.add(cp(Y), cp(Y2))], {})
+    B['tt_to_qtt'] = lambda: ([cp(A)], {})
+    return B
+
+
+def sys_alternatives(E, fname, pname, default):
+    """-> list of keyword dictionaries that set parameter `pname` of `fname` to a non-default documented value (possibly
+    together with the parameters it needs), or None if no value is known"""
+    tn = E.tn
+    I, y, X, yx = E.I, E.y, E.X, E.yx
+
+    def cb(Y, info, opts):
+        return None
+    spec = {
+        ('als', 'I_vld'): [dict(I_vld=cp(I[:20]), y_vld=cp(y[:20]))], ('als', 'y_vld'): [dict(I_vld=cp(I[20:40]), y_vld=cp(y[20:40]))],
+        ('als', 'e_vld'): [dict(I_vld=cp(I[:20]), y_vld=cp(y[:20]), e_vld=1e-1)],
+        ('als', 'r'): [dict(r=3)], ('als', 'r_add'): [dict(r=3, r_add=1)], ('als', 'e_adap'): [dict(r=3, e_adap=1e-1)],
+        ('als', 'w'): [dict(w=np.linspace(0.5, 1.5, len(y)))], ('als', 'cb'): [dict(cb=cb)],
+        ('als', 'swap_tol'): [dict(r=3, allow_swap=True, swap_tol=1, I_vld=cp(I[:20]), y_vld=cp(y[:20]))],
+        ('als', 'allow_swap'): [dict(r=3, allow_swap=True, I_vld=cp(I[:20]), y_vld=cp(y[:20]))],
+        ('als', 'update_sol'): [dict(update_sol=True)], ('als', 'lamb'): [dict(lamb=1e-1)], ('als', 'info'): [dict(info={})],
+        ('als_func', 'X_vld'): [dict(X_vld=cp(X[:20]), y_vld=cp(yx[:20]))], ('als_func', 'y_vld'): [dict(X_vld=cp(X[20:40]), y_vld=cp(yx[20:40]))],
+        ('als_func', 'e_vld'): [dict(X_vld=cp(X[:20]), y_vld=cp(yx[:20]), e_vld=1e-1)],
+        ('als_func', 'fh'): [dict(fh=lambda x: tn.func_basis(x, 4))], ('als_func', 'n_max'): [dict(n_max=6)],
+        ('als_func', 'update_sol'): [dict(update_sol=True)], ('als_func', 'a'): [dict(a=-2.)], ('als_func', 'b'): [dict(b=2.)],
+        ('als_func', 'lamb'): [dict(lamb=1e-1)], ('als_func', 'thr_pow'): [dict(n_max=6, thr_pow=1e-2)], ('als_func', 'info'): [dict(info={})],
+        ('cross', 'm'): [dict(m=100)], ('cross', 'e'): [dict(e=1e-3)], ('cross', 'nswp'): [dict(nswp=1)],
+        ('cross', 'I_vld'): [dict(I_vld=cp(E.I44[:20]), y_vld=Env.f_cross(E.I44[:20]))], ('cross', 'y_vld'): [dict(I_vld=cp(E.I44[20:40]), y_vld=Env.f_cross(E.I44[20:40]))],
+        ('cross', 'e_vld'): [dict(I_vld=cp(E.I44[:20]), y_vld=Env.f_cross(E.I44[:20]), e_vld=1e-2)],
+        ('cross', 'cb'): [dict(cb=cb)], ('cross', 'cache'): [dict(cache={})], ('cross', 'info'): [dict(info={})],
+        ('cross', 'm_cache_scale'): [dict(cache={}, m_cache_scale=1)], ('cross', 'dr_min'): [dict(dr_min=2, dr_max=2)], ('cross', 'dr_max'): [dict(dr_max=2)],
+        ('cross', 'func'): [dict(func=lambda f, Ig, Ir, Ic, info, cache: sys.modules['teneva.cross']._func(f, Ig, Ir, Ic, info, cache))],
+        ('cross_act', 'e'): [dict(e=1e-2)], ('cross_act', 'nswp'): [dict(nswp=1)], ('cross_act', 'r'): [dict(r=2)], ('cross_act', 'dr'): [dict(dr=1)],
+        ('cross_act', 'dr2'): [dict(dr2=1)],
+        ('const', 'I_zero'): [dict(I_zero=[[0, 0, 0], [1, 2, 1]])], ('const', 'i_non_zero'): [dict(I_zero=[[0, 0, 0]], i_non_zero=[1, 1, 1])],
+        ('accuracy_on_data', 'e_trunc'): [dict(e_trunc=1e-2)], ('add_many', 'trunc_freq'): [dict(trunc_freq=1)],
+        ('core_dot', 'ltr'): [dict(ltr=False, _args=lambda: [cp(E.G), cp(E.R22)])], ('core_dot_inv', 'ltr'): [dict(ltr=False, _args=lambda: [cp(E.G), cp(E.R22)])],
+        ('core_dot_maxvol', 'ltr'): [dict(ltr=False, _args=lambda: [cp(E.G), cp(E.R22)])], ('core_dot_maxvol', 'ind'): [dict(ind=[0, 1])],
+        ('matrix_skeleton', 'hermitian'): [dict(hermitian=True, _args=lambda: [E.M.T @ E.M])],
+        ('grid_prep_opt', 'd'): [dict(d=2)], ('grid_prep_opt', 'kind'): [dict(kind=int)], ('grid_prep_opt', 'reps'): [dict(reps=2)],
+        ('grid_prep_opts', 'a'): [dict(a=-2.)], ('grid_prep_opts', 'b'): [dict(b=2.)], ('grid_prep_opts', 'n'): [dict(n=5)],
+        ('grid_prep_opts', 'd'): [dict(d=2)], ('grid_prep_opts', 'reps'): [dict(reps=2)],
+        ('cache_to_data', 'cache'): [dict(_args=lambda: [{(0, 1, 2): 1.5, (3, 0, 1): -2.}])],
+        ('cross', 'tau'): [dict(tau=1.5, dr_max=2)], ('cross', 'tau0'): [dict(tau0=1.3)], ('cross', 'k0'): [dict(k0=2)],
+        ('vector_delta', 'v'): [dict(v=-2.5)], ('matrix_delta', 'v'): [dict(v=-2.5)],
+        ('svd_incomplete', 'e'): [dict(e=1e-2)], ('svd_incomplete', 'r'): [dict(r=1)],
+        ('optima_tt_maxvol', 'k'): [dict(k=3)], ('optima_tt_maxvol', 'how'): [dict(how='l2r'), dict(how='r2l'), dict(how='both')],
+        ('optima_tt_maxvol', 'use'): None,
+        ('core_stab', 'p0'): [dict(p0=3)], ('core_stab', 'thr'): [dict(thr=1e100)],
+        ('func_basis', 'ones_func'): [dict(ones_func=lambda sh: np.ones(sh))], ('func_basis', 'm'): [dict(m=4)],
+        ('func_get', 'a'): None, ('func_get', 'b'): None, ('func_get', 'funcs'): [dict(funcs=lambda x: tn.func_basis(x, 4))],
+        ('func_get', 'skip_out'): [dict(skip_out=True)], ('func_get', 'z'): [dict(z=-7.)], ('func_get_full', 'z'): [dict(z=-7., skip_out=True)],
+        ('func_gets', 'm'): [dict(m=6)], ('func_gets_full', 'm'): [dict(m=6)],
+        ('interface', 'P'): [dict(P=[np.ones(4) / 4, np.ones(5) / 5, np.ones(3) / 3])], ('interface', 'i'): [dict(i=[1, 2, 0])],
+        ('interface', 'norm'): [dict(norm='natural'), dict(norm=None)], ('mean', 'P'): [dict(P=[np.ones(4) / 4, np.ones(5) / 5, np.ones(3) / 3])],
+        ('matrix_skeleton', 'give_to'): [dict(give_to='l'), dict(give_to='r')], ('matrix_skeleton', 'r'): [dict(r=2)], ('matrix_skeleton', 'e'): [dict(e=1e-1)],
+        ('matrix_svd', 'r'): [dict(r=2)], ('matrix_svd', 'e'): [dict(e=1e-1)],
+        ('maxvol', 'e'): [dict(e=1.5)], ('maxvol', 'k'): [dict(k=1)],
+        ('maxvol_rect', 'dr_max'): [dict(dr_max=2)], ('maxvol_rect', 'dr_min'): [dict(dr_min=1)], ('maxvol_rect', 'e'): [dict(e=1.01, dr_max=2)],
+        ('maxvol_rect', 'e0'): [dict(e0=1.5)], ('maxvol_rect', 'k0'): [dict(k0=1)],
+        ('optima_func_tt_beam', 'k'): [dict(k=3)], ('optima_func_tt_beam', 'k_loc'): [dict(k=4, k_loc=2)],
+        ('optima_tt_beam', 'p'): None, ('optima_tt_beam', 'k'): [dict(k=3)], ('optima_tt', 'k'): [dict(k=3)], ('optima_tt_max', 'k'): [dict(k=3)],
+        ('optima_qtt', 'k'): [dict(k=2)], ('optima_qtt', 'e'): [dict(e=1e-2)], ('optima_qtt', 'r'): [dict(r=1)],
+        ('orthogonalize', 'k'): [dict(k=1), dict(k=0)],
+        ('poly', 'shift'): [dict(shift=0.5)], ('poly', 'power'): [dict(power=3)], ('poly', 'scale'): [dict(scale=2.)],
+        ('sample', 'm'): [dict(m=5)], ('sample', 'unsert'): [dict(unsert=1e-2)],
+        ('sample_square', 'm'): [dict(m=5)], ('sample_square', 'm_fact'): [dict(m=5, m_fact=2)], ('sample_square', 'max_rep'): [dict(m=40, max_rep=3)],
+        ('sample_square', 'float_cf'): [dict(m=5, float_cf=2)], ('sample_square', 'unique'): [dict(m=5, unique=False)],
+        ('sample_tt', 'r'): [dict(r=2)],
+        ('ANOVA', 'fpath'): None, ('anova', 'fpath'): None, ('ANOVA', 'order'): [dict(order=2)], ('anova', 'order'): [dict(order=2, r=3)],
+        ('anova', 'r'): [dict(r=3)], ('anova', 'noise'): [dict(noise=1e-3)], ('anova_func', 'lamb'): [dict(lamb=1e-2)], ('anova_func', 'e'): [dict(e=1e-2)],
+        ('ANOVA_func', 'lamb'): [dict(lamb=1e-2)],
+        ('truncate', 'e'): [dict(e=1e-1)], ('truncate', 'r'): [dict(r=2)], ('svd', 'e'): [dict(e=1e-1)], ('svd', 'r'): [dict(r=2)],
+        ('svd_matrix', 'e'): [dict(e=1e-1)], ('svd_matrix', 'r'): [dict(r=2)], ('tt_to_qtt', 'e'): [dict(e=1e-2)], ('tt_to_qtt', 'r'): [dict(r=2)],
+        ('core_tt_to_qtt', 'e'): [dict(e=1e-2)], ('core_tt_to_qtt', 'r'): [dict(r=1)], ('add_many', 'e'): [dict(e=1e-1)], ('add_many', 'r'): [dict(r=2)],
+        ('cdf_confidence', 'alpha'): [dict(alpha=0.2)], ('delta', 'v'): [dict(v=-2.5)], ('const', 'v'): [dict(v=-2.5)],
+        ('rand', 'a'): [dict(a=-3.)], ('rand', 'b'): [dict(b=3.)], ('rand_norm', 'm'): [dict(m=2.)], ('rand_norm', 's'): [dict(s=0.25)],
+        ('rand_stab', 'noise'): [dict(noise=1e-3)],
+        ('get', '_to_item'): [dict(_to_item=False)], ('get_many', '_to_item'): [dict(_to_item=False)],
+        ('func_diff_matrix', 'm'): [dict(m=2)],
+    }
+    if pname == 'seed':
+        return []                                  # the seed has its own streams
+    if (fname, pname) in spec:
+        return spec[(fname, pname)]
+    if isinstance(default, (bool, np.bool_)):
+        return [{pname: not default}]
+    if pname == 'kind' and default in ('uni', 'cheb'):
+        if fname.startswith('func_'):
+            return [{pname: 'sin'}]
+        return [{pname: 'cheb' if default == 'uni' else 'uni'}]
+    if pname == 'order' and default == 'F':
+        return [{pname: 'C'}]
+    if pname == 'nswp':
+        return [{pname: 3}]
+    if pname == 'e' and isinstance(default, float):
+        return [{pname: 1e-2}]
+    if pname == 'log':
+        return [{pname: True}]
+    if pname == 'a' and isinstance(default, float):
+        return [{pname: default - 1.}]
+    if pname == 'b' and isinstance(default, float):
+        return [{pname: default + 1.}]
+    return None
+
+
+def systematic_recipes(E):
+    """-> (dict label -> thunk, list of (function, parameter, reason) that could not be exercised).  One recipe per exported
+    function with all options at their defaults and one per (function, optional parameter, non-default value)."""
+    import inspect
+    tn = E.tn
+    B = sys_base(E)
+    R, missing = {}, []
+    documented_inplace = {('orthogonalize_left', 'inplace'), ('orthogonalize_right', 'inplace')}
+    known_outside = {('optima_tt_beam', 'to_orth'): 'undocumented parameter; to_orth=False orthogonalises the argument in place (known, DESIGN 6 C09): '
+                                                    'outside the documented interface'}
+    names = [nm for nm in sorted(dir(tn)) if not nm.startswith('_') and callable(getattr(tn, nm)) and
+             getattr(getattr(tn, nm), '__module__', '').startswith('teneva')]
+    for nm in names:
+        f = getattr(tn, nm)
+        try:
+            sig = inspect.signature(f)
+        except (TypeError, ValueError):
+            missing.append((nm, '*', 'no signature'))
+            continue
+        opt = [(p.name, p.default) for p in sig.parameters.values() if p.default is not inspect.Parameter.empty]
+        if nm not in B:
+            missing += [(nm, pn, 'no base recipe for this function') for pn, _ in opt if pn != 'seed'] or [(nm, '-', 'no base recipe for this function')]
+            continue
+
+        def mk(nm=nm, kw=None):
+            def th():
+                a, k = B[nm]()
+                k = dict(k)
+                k.update({x: v for x, v in (kw or {}).items() if x != '_args'})
+                if kw and '_args' in kw:
+                    a = kw['_args']()
+                r = getattr(E.tn, nm)(*a, **k)
+                for key in ('info', 'cache'):
+                    if kw and key in kw:               # a dictionary supplied by the caller is an output too
+                        kk = k[key]
+                        r = [r, {x: v for x, v in kk.items() if x != 't'} if key == 'info' else len(kk)]
+                        kw[key].clear()
+                return r
+            return th
+        R[f'{nm}()'] = mk()
+        try:
+            given = set(sig.bind_partial(*B[nm]()[0]).arguments)
+        except TypeError:
+            given = set()
+        for pn, dflt in opt:
+            if pn == 'seed':
+                continue
+            if (nm, pn) in known_outside:
+                missing.append((nm, pn, known_outside[(nm, pn)]))
+                continue
+            alts = sys_alternatives(E, nm, pn, dflt)
+            if alts is None and pn in given:
+                continue                                   # supplied positionally by the base recipe
+            if alts is None:
+                missing.append((nm, pn, 'no non-default value known to the harness'))
+                continue
+            for kw in alts:
+                lab = f'{nm}({", ".join(f"{k}={short(v, 24) if not callable(v) else "<callable>"}" for k, v in kw.items() if k != "_args")}{" [other positional arguments]" if "_args" in kw else ""})'
+                if (nm, pn) in documented_inplace:
+                    lab += ' [documented in-place]'
+                R[lab] = mk(kw=kw)
+                R[lab].param = (nm, pn)
+    return R, missing
+
+
 def all_thunks(E, seeds, degenerate=True):
     """(key, thunk, finding_key) for every recipe: seeded with integer seeds, unseeded, flagged, degenerate"""
     out = []
@@ -594,6 +878,10 @@ def all_thunks(E, seeds, degenerate=True):
     for R in U:
         for name, call in R.items():
             out.append(((name, '', None), call))
+    SR_, missing = systematic_recipes(E)
+    _STATE['sys_missing'] = missing
+    for name, call in SR_.items():
+        out.append(((name, 'option coverage', None), call))
     return out
 
 
@@ -1265,6 +1553,10 @@ def correspondence(R, ctx):
                        f"tolerated by the check (an exception is not a silently different answer), reported to the lead")
     if stats.get('argform_raises'):
         R.notes.append(f"argument forms that raise instead of giving the canonical answer (tolerated): {stats['argform_raises'][:12]}")
+    miss = _STATE.get('sys_missing') or []
+    R.notes.append(f"option coverage: every optional parameter of every exported function set to a non-default value, one at a time, in the "
+                   f"history / shared-arguments / poison streams; (function, parameter) pairs NOT exercised ({len(miss)}): "
+                   f"{[list(m) for m in miss]}")
     R.notes.append(f"calls that raised in the raising-calls block of the history probe: {stats.get('raising_calls')}")
     if stats['uncovered']:
         R.notes.append(f"seeded exported functions without a dynamic recipe (static proof still covers them): {stats['uncovered']}")
@@ -1294,7 +1586,7 @@ def search(R, ctx, deep, hints):
 
 def extra_evidence(R):
     rep = _STATE.get('report') or {}
-    return dict(translator_rules=SK.RULES, exemptions=[['tensors.rand_custom', 'f']],
+    return dict(translator_rules=SK.RULES, exemptions=[['tensors.rand_custom', 'f']], options_not_exercised=[list(m) for m in (_STATE.get('sys_missing') or [])],
                 skeleton=dict(functions=len(rep.get('functions', [])), sites=len(rep.get('sites', [])),
                               flagged=rep.get('flagged', [])[:30], notes=rep.get('notes', []),
                               universe=rep.get('universe', []), seeded_exported=rep.get('seeded_exported', [])),
